@@ -550,7 +550,7 @@ class PowerMethod(Contract):
     """power_method: inverse iteration by repeated sle.als solves.  Structural clauses: every TT operation and solve is inside
     its callee's domain, the returned eigentensor is a valid vector on the operator's column dimensions, inputs never written."""
     name, func, file, cls = 'fn:power_method', 'power_method', FILE, None
-    props = ('C08',)
+    props = ('C08', 'C06')
     KEY = 'i in range(repeats)'
     loop_ordinals = {0: KEY}
 
